@@ -56,6 +56,24 @@ def run(pid, tier, seed, root, repo, env):
         else:
             out["broken"].append({"kind": "harness-build", "what": p.stdout[-1500:]})
         return out
+    if pid == "C19":
+        # a counter that is narrower than the game is long: a capture-free game far beyond 2^16 turns, every action taken
+        # from the offered list, with overflow checks (the harness's release profile sets `overflow-checks = true`)
+        p = subprocess.run(["cargo", "build", "--release", "--offline", "--bin", "longgame"], cwd=harness, stdout=subprocess.PIPE, stderr=subprocess.STDOUT, text=True, env=env)
+        if p.returncode != 0:
+            out["broken"].append({"kind": "harness-build", "what": p.stdout[-1500:]})
+            return out
+        exe = os.path.join(harness, "target", "release", "longgame")
+        n = 70000 if tier == "quick" else 300000
+        rc, so, se = _run([exe, "play", str(n)], env, 3600)
+        out["evals"] += n
+        out["nontrivial"] += 1
+        out["counts"]["C19-capture-free-turns-played-with-overflow-checks"] = n
+        out["samples"].append({"longgame play %d" % n: so.strip()[:300], "exit": rc})
+        if rc != 0:
+            out["fails"].append({"prop": "C19", "what": "long-capture-free-game-panics", "start": "harness/target/release/longgame play %d" % n, "actions": [],
+                                 "detail": "exit status %d: %s" % (rc, (se or so)[-600:])})
+        return out
     if pid == "C20":
         p = subprocess.run(["cargo", "build", "--release", "--offline", "--bin", "longgame"], cwd=harness, stdout=subprocess.PIPE, stderr=subprocess.STDOUT, text=True, env=env)
         if p.returncode != 0:
